@@ -11,10 +11,10 @@ type c05Construct struct {
 
 var c05Table = []c05Construct{
 	{"npm", "caret", []int{2, 3}, []string{"", "-{n}", "-{l}{l}.{d}"}},
-	{"npm", "tilde", []int{1, 2, 3}, []string{"", "-{n}"}},
+	{"npm", "tilde", []int{1, 2, 3}, []string{"", "-{n}", "-{l}.{d}"}},
 	{"npm", "xrange", []int{1, 2}, []string{""}},
 	{"cargo", "caret", []int{1, 2, 3}, []string{"", "-{l}{l}{l}{l}{l}.{d}", "-{n}"}},
-	{"cargo", "tilde", []int{1, 2, 3}, []string{"", "-{n}"}},
+	{"cargo", "tilde", []int{1, 2, 3}, []string{"", "-{n}", "-{l}.{d}"}},
 	{"cargo", "wildcard", []int{1, 2}, []string{""}},
 	{"composer", "caret", []int{2, 3}, []string{""}},
 	{"composer", "tilde", []int{2, 3}, []string{""}},
@@ -22,7 +22,7 @@ var c05Table = []c05Construct{
 	{"conan", "tilde", []int{1, 2, 3}, []string{""}},
 	{"conan", "caret", []int{1, 2, 3}, []string{""}},
 	{"gem", "pessimistic", []int{1, 2, 3}, []string{""}},
-	{"hex", "pessimistic", []int{2, 3}, []string{"", "-{n}"}},
+	{"hex", "pessimistic", []int{2, 3}, []string{"", "-{n}", "-{l}{l}.{d}", "+{l}.{d}"}},
 	{"pypi", "compatible", []int{2, 3}, []string{"", ".post{d}"}},
 	{"pypi", "prefix", []int{1, 2, 3}, []string{""}},
 }
@@ -111,6 +111,12 @@ func init() {
 							out = append(out, &Config{ID: fmt.Sprintf("C05/%s/hyphen/%s|%s/%s", eco, a, b, p), Pkg: zzhPkg, Func: "C05Hyphen", Args: []ArgSpec{ArgStr(eco), ArgTmpl(a), ArgTmpl(b), ArgTmpl(p)}})
 						}
 					}
+				}
+			}
+			// hyphen ranges whose bounds carry a pre-release (npm): the bound is the pre-release itself
+			for _, ab := range [][2]string{{"{d}.{d}.{d}", "{d}.{d}.{d}-{l}{l}.{d}"}, {"{d}.{d}.{d}-{l}", "{d}.{d}.{d}-{l}{l}"}, {"{d}.{d}.{d}-{l}.{d}", "{d}.{d}.{d}"}} {
+				for _, p := range []string{"{d}.{d}.{d}", "{d}.{d}.{d}-{l}{l}.{d}", "{d}.{d}.{d}-{l}", "{d}.{d}.{d}-{n}"} {
+					out = append(out, &Config{ID: fmt.Sprintf("C05/npm/hyphen-pre/%s|%s/%s", ab[0], ab[1], p), Pkg: zzhPkg, Func: "C05Hyphen", Args: []ArgSpec{ArgStr("npm"), ArgTmpl(ab[0]), ArgTmpl(ab[1]), ArgTmpl(p)}})
 				}
 			}
 			for _, p := range c05Probes("pypi", tier) {
